@@ -82,6 +82,16 @@ CHECKS = {
          "Every sequence of <= 4 (quick) / 5 (thorough) events over the 7 parameter-update message types x authority {gov, user, empty, garbage} x 33 payloads (valid, invalid, partially valid: share pushing the sum to 1, burn share 1, replacement breaking the MAIN ordering rule, minters missing the current id, unordered, gap, linear last, denom changes) interleaved with blocks that move the minter to the next period and a create-pool message. Every state: stored parameters of all three modules validate and contain the minter's current period. Every transition: non-gov authority is rejected, a rejected update leaves all parameter bytes unchanged, an accepted one stores exactly the requested value, the vesting denom never changes while pools exist, no other message changes parameters.",
          "Authority messages are executed the way x/gov executes them (router handler on a cache branch).",
          "DESIGN.md §3 C13"),
+ "C15": ("model_checking",
+         "explicit-state BFS over real-store branches + ABCI conformance replay (commits in between) + exhaustive single-field mutation list",
+         "Every history of <= 4 (quick) / 5 (thorough) publish / store messages over 2 reference ids x 3 link values (incl. empty) and 3 storage keys x 5 signature payloads (valid ECDSA P-256, valid RSA-2048, valid over the other link, missing field, malformed JSON) with blocks in between; in every state the raw payload-link entries must equal a first-writer-wins model and VerifySignature for every (address, reference) must succeed exactly when an independent crypto/ecdsa / crypto/rsa verification of the stored record over sha256(addr:ref:link) passes, returning signature, algorithm, certificate and timestamp unchanged. 718 single-field mutations of 4 valid records (a bit flipped at every byte of the signature, algorithm / certificate swapped, unknown, empty, truncated; address, reference id, link swapped) must all fail verification. BFS-tree paths are replayed through ABCI with real commits, so values are read back from IAVL.",
+         "Messages driven at the exported msg-server seam (the app does not route them); fixtures committed.",
+         "DESIGN.md §3 C15"),
+ "C20": ("exploration",
+         "bounded-exhaustive input enumeration (full product of per-field boundary alphabets) under recover()",
+         "For all 17 message types the full product of per-field boundary alphabets (addresses, Int/Dec incl. omitted-on-the-wire nil, Coins incl. nil amount / duplicates / invalid denom, durations and times incl. int64 extremes, Any incl. nil / foreign type / empty type url, nil pointers and nil slice elements, strings, JSON) - 21 672 inputs - each taken through a protobuf marshal / unmarshal / UnpackInterfaces round trip and run in 3 states (empty, populated, pool whose vesting type was removed): ValidateBasic must not panic, if it passes the handler (real router; msg server for cfesignature) must not panic and GetSigners must not panic; every query of the four modules with nil and boundary requests must not panic.",
+         "Inputs that cannot be encoded/decoded are counted as unreachable and not executed.",
+         "DESIGN.md §3 C20"),
 }
 
 NOT_YET = {}
